@@ -22,6 +22,34 @@ fn observe13(db: &mut Db, with_queries: bool) -> BTreeMap<String, String> {
     let mut idx: Vec<String> = db.db.list_indexes().iter().map(|s| s.to_uppercase()).collect();
     idx.sort();
     m.insert("list_indexes".into(), format!("{:?}", idx));
+    // the catalog's view of the same schema objects
+    let mut cat_idx: Vec<String> = db.db.catalog.list_all_indexes().iter().map(|i| format!("{}@{}", i.name.to_uppercase(), i.table_name)).collect();
+    cat_idx.sort();
+    m.insert("catalog_indexes".into(), format!("{:?}", cat_idx));
+    // ... and what DDL on the index names does: creating an index of a known name / dropping it
+    // must succeed or fail exactly as in the other state (probed on clones)
+    if with_queries {
+        let mut names: std::collections::BTreeSet<String> = idx.iter().cloned().collect();
+        for i in db.db.catalog.list_all_indexes() {
+            names.insert(i.name.to_uppercase());
+        }
+        for n in ["ZZ", "QV", "IX1", "IX2", "BIX1", "P0", "UW"] {
+            names.insert(n.to_string());
+        }
+        for n in names {
+            for t in &tables {
+                let col = db.db.get_table(t).map(|x| x.schema.columns[0].name.clone()).unwrap_or_default();
+                let mut probe = Db::from(db.db.clone());
+                probe.keep_log = false;
+                let o = probe.exec(&format!("CREATE INDEX {} ON {} ({})", n, t, col));
+                m.insert(format!("create_index_again:{}:{}", n, t), if o.is_ok() { "ok".into() } else { format!("err {}", o.err_class().unwrap_or("panic")) });
+            }
+            let mut probe = Db::from(db.db.clone());
+            probe.keep_log = false;
+            let o = probe.exec(&format!("DROP INDEX {}", n));
+            m.insert(format!("drop_index:{}", n), if o.is_ok() { "ok".into() } else { format!("err {}", o.err_class().unwrap_or("panic")) });
+        }
+    }
     for t in &tables {
         match observe(db, t) {
             Some(Ok(o)) => {
@@ -156,91 +184,65 @@ fn run_txn_case(c: &TxnCase, model: &mut model::Model, rep: &mut Report, label: 
     run_case_opts(&Case { schema: c.schema.clone(), stmts }, model, rep, label, false);
 }
 
-fn gen_txn_case(r: &mut Rng) -> TxnCase {
-    let pre_cfg = GenCfg { txn_weight: 0, savepoint_weight: 0, index_ddl_in_txn: true, len_lo: 2, len_hi: 8 };
-    let pre = gen_case(r, &pre_cfg);
-    let body_cfg = GenCfg { txn_weight: 0, savepoint_weight: 8, index_ddl_in_txn: r.chance(1, 3), len_lo: 1, len_hi: 10 };
-    let mut body_rng = r.fork();
-    // body over the same schema: generate, then drop its own leading setup statements' BEGINs
-    let mut body_case = gen_case(&mut body_rng, &body_cfg);
-    body_case.schema = pre.schema.clone();
-    let ncols = pre.schema.ncols();
-    let fits = |st: &Stmt| -> bool {
-        match st {
-            Stmt::Insert(rows) => rows.iter().all(|x| x.len() == ncols),
-            Stmt::Replace(x) | Stmt::Upsert(x, _, _) => x.len() == ncols,
-            _ => true,
-        }
-    };
-    let mut body: Vec<Stmt> = vec![];
-    for st in body_case.stmts {
-        let st = match st {
-            Stmt::Begin | Stmt::Commit | Stmt::Rollback => continue,
-            Stmt::CreateIndex(n, cols, u) => {
-                if !body_cfg.index_ddl_in_txn {
-                    continue;
-                }
-                Stmt::CreateIndex(format!("b{}", n), cols.into_iter().filter(|c| *c < ncols).collect::<Vec<_>>(), u)
-            }
-            Stmt::DropIndex(_) => {
-                if !body_cfg.index_ddl_in_txn {
-                    continue;
-                }
-                // drop one of the indexes of the pre-state if there is one
-                let names: Vec<String> = pre.stmts.iter().filter_map(|s| if let Stmt::CreateIndex(n, _, _) = s { Some(n.clone()) } else { None }).collect();
-                if names.is_empty() {
-                    continue;
-                }
-                Stmt::DropIndex(r.pick(&names).clone())
-            }
-            Stmt::Update(sets, p) => {
-                let ok = sets.iter().all(|(c, _)| *c < ncols)
-                    && match &p {
-                        Pred::Cmp(c, _, _) | Pred::IsNull(c) => *c < ncols,
-                        Pred::All => true,
-                    };
-                if !ok {
-                    continue;
-                }
-                Stmt::Update(sets, p)
-            }
-            Stmt::Delete(p) => {
-                let ok = match &p {
-                    Pred::Cmp(c, _, _) | Pred::IsNull(c) => *c < ncols,
-                    Pred::All => true,
-                };
-                if !ok {
-                    continue;
-                }
-                Stmt::Delete(p)
-            }
-            Stmt::Upsert(x, c, v) => {
-                if c >= ncols {
-                    continue;
-                }
-                Stmt::Upsert(x, c, v)
-            }
-            other => other,
-        };
-        if matches!(&st, Stmt::CreateIndex(_, cols, _) if cols.is_empty()) {
-            continue;
-        }
-        if fits(&st) {
-            body.push(st);
-        }
+/// statements that must FAIL inside a transaction without changing anything
+fn refused_stmt(r: &mut Rng) -> Stmt {
+    match r.below(6) {
+        0 | 1 => Stmt::Begin, // nested BEGIN: "Transaction already active"
+        2 => Stmt::Raw("CREATE SCHEMA s9".into()), // opens its own transaction: refused
+        3 => Stmt::Raw("INSERT INTO nosuch VALUES (1)".into()),
+        4 => Stmt::Raw("CREATE INDEX bad ON nosuch (a)".into()),
+        _ => Stmt::Raw("DROP INDEX nosuchindex".into()),
     }
-    // other schema objects inside the transaction
+}
+
+fn gen_txn_case(r: &mut Rng) -> TxnCase {
+    let schema = gen_schema(r);
+    let mut g = GenState::new();
+    let pre_cfg = GenCfg { txn_weight: 0, savepoint_weight: 0, index_ddl_in_txn: true, len_lo: 2, len_hi: 8 };
+    let mut pre = vec![];
+    for _ in 0..r.range(0, 2) {
+        pre.push(Stmt::CreateIndex(format!("p{}", pre.len()), vec![r.below(schema.ncols() as u64) as usize], false));
+        g.idx_names.push(format!("p{}", pre.len() - 1));
+    }
+    for _ in 0..r.range(0, 5) {
+        pre.push(Stmt::Insert(vec![gen_row(r, &schema, &mut g.next_id)]));
+    }
+    pre.extend(gen_stmts(r, &pre_cfg, &schema, &mut g));
+    if r.chance(1, 4) {
+        // transaction control without a transaction: must fail and change nothing
+        pre.push(Stmt::Raw((*r.pick(&["COMMIT", "ROLLBACK", "SAVEPOINT x"])).to_string()));
+    }
+    let body_cfg = GenCfg { txn_weight: 0, savepoint_weight: 8, index_ddl_in_txn: r.chance(1, 2), len_lo: 1, len_hi: 10 };
+    g.in_txn = true;
+    let mut body: Vec<Stmt> = gen_stmts(r, &body_cfg, &schema, &mut g);
+    // other schema objects inside the transaction (a second table, with and without an index)
     if r.chance(1, 3) {
         let at = r.below(body.len() as u64 + 1) as usize;
-        body.insert(at, Stmt::Raw("CREATE TABLE u (k INT PRIMARY KEY, w INT)".into()));
+        let mut extra = vec![Stmt::Raw("CREATE TABLE u (k INT PRIMARY KEY, w INT)".into())];
         if r.chance(2, 3) {
-            body.insert(at + 1, Stmt::Raw(format!("INSERT INTO u VALUES ({}, {})", r.range(0, 9), r.range(0, 9))));
+            extra.push(Stmt::Raw(format!("INSERT INTO u VALUES ({}, {})", r.range(0, 9), r.range(0, 9))));
+        }
+        if r.chance(1, 2) {
+            extra.push(Stmt::Raw("CREATE INDEX uw ON u (w)".into()));
         }
         if r.chance(1, 3) {
-            body.push(Stmt::Raw("DROP TABLE u".into()));
+            extra.push(Stmt::Raw("DROP TABLE u".into()));
+        }
+        for (k, e) in extra.into_iter().enumerate() {
+            body.insert(at + k, e);
         }
     }
-    TxnCase { schema: pre.schema, pre: pre.stmts, body, commit: r.chance(1, 5) }
+    // refused statements at every position (before / between / after the index DDL)
+    let n_refused = r.range(0, 3);
+    for _ in 0..n_refused {
+        let at = r.below(body.len() as u64 + 1) as usize;
+        body.insert(at, refused_stmt(r));
+    }
+    // DROP TABLE of the (possibly indexed) main table as the last statement
+    if r.chance(1, 10) {
+        body.push(Stmt::Raw("DROP TABLE t".into()));
+    }
+    TxnCase { schema, pre, body, commit: r.chance(1, 5) }
 }
 
 fn v(i: i64) -> Val {
@@ -248,7 +250,7 @@ fn v(i: i64) -> Val {
 }
 
 fn probes() -> Vec<(&'static str, TxnCase)> {
-    let s2 = Schema { int_col: vec![true, true], pk: true, uniques: vec![] };
+    let s2 = Schema { kinds: vec![], int_col: vec![true, true], pk: true, uniques: vec![] };
     let pre = vec![
         Stmt::CreateIndex("qv".into(), vec![1], false),
         Stmt::Insert(vec![vec![v(1), v(1)]]),
@@ -261,6 +263,12 @@ fn probes() -> Vec<(&'static str, TxnCase)> {
         ("truncate-in-txn", TxnCase { schema: s2.clone(), pre: pre.clone(), body: vec![Stmt::Truncate, Stmt::Insert(vec![vec![v(1), v(5)]])], commit: false }),
         ("create-drop-table-in-txn", TxnCase { schema: s2.clone(), pre: pre.clone(), body: vec![Stmt::Raw("CREATE TABLE u (k INT PRIMARY KEY, w INT)".into()), Stmt::Raw("INSERT INTO u VALUES (1, 1)".into())], commit: false }),
         ("commit-keeps", TxnCase { schema: s2.clone(), pre: pre.clone(), body: vec![Stmt::Delete(Pred::Cmp(0, "=", v(1))), Stmt::Insert(vec![vec![v(9), v(2)]])], commit: true }),
+        // a refused BEGIN / CREATE SCHEMA inside the transaction must not disturb what ROLLBACK restores
+        ("create-index-then-nested-begin", TxnCase { schema: s2.clone(), pre: pre.clone(), body: vec![Stmt::CreateIndex("zz".into(), vec![0, 1], false), Stmt::Begin], commit: false }),
+        ("drop-index-then-create-schema", TxnCase { schema: s2.clone(), pre: pre.clone(), body: vec![Stmt::DropIndex("qv".into()), Stmt::Raw("CREATE SCHEMA s9".into()), Stmt::Insert(vec![vec![v(9), v(2)]])], commit: false }),
+        ("new-table-with-index-then-nested-begin", TxnCase { schema: s2.clone(), pre: pre.clone(), body: vec![Stmt::Raw("CREATE TABLE u (k INT PRIMARY KEY, w INT)".into()), Stmt::Raw("INSERT INTO u VALUES (1, 1)".into()), Stmt::Raw("CREATE INDEX uw ON u (w)".into()), Stmt::Begin], commit: false }),
+        ("drop-indexed-table-then-nested-begin", TxnCase { schema: s2.clone(), pre: pre.clone(), body: vec![Stmt::Raw("DROP TABLE t".into()), Stmt::Begin], commit: false }),
+        ("nested-begin-before-index-ddl", TxnCase { schema: s2.clone(), pre: pre.clone(), body: vec![Stmt::Begin, Stmt::CreateIndex("zz".into(), vec![0], false)], commit: false }),
         // repaired defect 650ff828, kept as regression probes
         ("create-index-in-txn (regression: 650ff828)", TxnCase { schema: s2.clone(), pre: pre.clone(), body: vec![Stmt::CreateIndex("zz".into(), vec![0, 1], false)], commit: false }),
         ("drop-index-in-txn (regression: 650ff828)", TxnCase { schema: s2.clone(), pre: pre.clone(), body: vec![Stmt::DropIndex("qv".into())], commit: false }),
